@@ -189,12 +189,18 @@ def check_C19(pid, tier, seed, chk):
     for i, m in enumerate(methods):
         for name, what, must_reject, src in method_probes(i, m):
             probes.append(dict(name=name, what=what, must_reject=must_reject, src=src, row=("M", i)))
+    # a mutable iterator must not be clonable (the probe: `.clone()` on it is rejected), a shared one may be
+    CLONE_PROBE = {"MRUIterMut": "c.iter_mut()", "LRUIterMut": "c.iter_lru_mut()", "ValuesMRUIterMut": "c.values_mut()",
+                   "ValuesLRUIterMut": "c.values_lru_mut()"}
+    for j, (tname, expr) in enumerate(sorted(CLONE_PROBE.items())):
+        src = PRELUDE + "fn main() { let mut c = %s; c.put(1, 1); let a = %s; let b = a.clone(); touch(a); touch(b); }\n" % (CTOR["RawLRU"], expr)
+        probes.append(dict(name="cl%d" % j, what="clone of a mutable iterator (%s)" % tname, must_reject=True, src=src, row=("C", j)))
     for i, r in enumerate(markers):
         for name, what, must_reject, src in marker_probes(i, r, req.get(i, {})):
             probes.append(dict(name=name, what=what, must_reject=must_reject, src=src, row=("I", i)))
     if tier == "quick":
         # every row keeps its hold-across-mutation probe and its control; the other shapes for every third row
-        probes = [pb for pb in probes if pb["name"].endswith(("_p1", "_ok", "_bad", "_sendonly")) or pb["row"][1] % 3 == 0
+        probes = [pb for pb in probes if pb["name"].endswith(("_p1", "_ok", "_bad", "_sendonly")) or pb["row"][1] % 3 == 0 or pb["row"][0] == "C"
                   or (pb["name"].endswith("_p3") and pb["row"][0] == "M" and methods[pb["row"][1]].get("excl_out"))]
 
     def run(pb):
@@ -214,6 +220,11 @@ def check_C19(pid, tier, seed, chk):
             model_safe = tied.get(i, True)
             desc = "%s::%s (%s)" % (row["ty"], row["method"], pb["what"])
             okcodes = BORROW_ERRS
+        elif kind == "C":
+            row = dict(clone_probe=pb["what"])
+            model_safe = True
+            desc = pb["what"]
+            okcodes = {"E0599", "E0277"}
         else:
             row = markers[i]
             model_safe = suff.get(i, True)
